@@ -992,3 +992,23 @@ def result_value(e):
         else:
             break
     return e
+
+
+def value_alternatives(e, depth=0):
+    """the expressions a value can be, each with the conditions selecting it: [([(cond, polarity)..], expr)] - through immutable lets,
+    if/else and blocks (diverging branches are dropped)"""
+    e = tail_value(e)
+    if depth > 6:
+        return [([], e)]
+    if e.get("k") == "local" and e["id"] in _tree.LET_INITS:
+        return value_alternatives(_tree.LET_INITS[e["id"]], depth + 1)
+    if e.get("k") == "if" and "else" in e:
+        out = []
+        for br, pol in ((e["then"], True), (e["else"], False)):
+            if _diverges(br):
+                continue
+            out += [([(e["cond"], pol)] + cs, x) for cs, x in value_alternatives(br, depth + 1)]
+        return out
+    if e.get("k") == "blockexpr" and "tail" in e["b"]:
+        return value_alternatives(e["b"]["tail"], depth + 1)
+    return [([], e)]
